@@ -7,6 +7,7 @@ import (
 	"sort"
 	"strconv"
 	"strings"
+	"sync"
 
 	"github.com/github/git-sizer/counts"
 )
@@ -183,6 +184,8 @@ type humanStats struct {
 	NoiseCount    int              `json:"float_noise_violations"`
 	Samples       []interface{}    `json:"samples"`
 	PerPrefix     map[string]int   `json:"per_prefix"`
+	// number of goroutines that were formatting concurrently
+	ConcurrentJudges int `json:"concurrent_judges"`
 }
 
 func humanCheckSorted(vals []uint64, binary bool, st *humanStats) {
@@ -314,13 +317,44 @@ func humanBulk(args []string) {
 		sort.Slice(vals, func(i, j int) bool { return vals[i] < vals[j] })
 		// thin into interleaved sub-lists so that every batch spans the whole range
 		nb := (len(vals) + batch - 1) / batch
+		if nb < 4 {
+			nb = 4
+		}
+		// the sub-lists are judged by concurrent goroutines: the formatter is a pure function and must stay correct
+		// when several callers are inside it at once
+		var wg sync.WaitGroup
+		parts := make([]*humanStats, nb)
 		for b := 0; b < nb; b++ {
 			sub := make([]uint64, 0, len(vals)/nb+1)
 			for i := b; i < len(vals); i += nb {
 				sub = append(sub, vals[i])
 			}
-			humanCheckSorted(sub, binary, st)
+			parts[b] = &humanStats{PerPrefix: map[string]int{}}
+			wg.Add(1)
+			go func(sub []uint64, ps *humanStats) {
+				defer wg.Done()
+				humanCheckSorted(sub, binary, ps)
+			}(sub, parts[b])
 		}
+		wg.Wait()
+		for _, ps := range parts {
+			st.Evaluations += ps.Evaluations
+			st.Distinct += ps.Distinct
+			st.MonotonePairs += ps.MonotonePairs
+			st.NoiseCount += ps.NoiseCount
+			for k, v := range ps.PerPrefix {
+				st.PerPrefix[k] += v
+			}
+			for _, v := range ps.Violations {
+				if len(st.Violations) < 200 {
+					st.Violations = append(st.Violations, v)
+				}
+			}
+			if len(st.Samples) < 12 {
+				st.Samples = append(st.Samples, ps.Samples...)
+			}
+		}
+		st.ConcurrentJudges = nb
 	}
 	emit(st)
 }
